@@ -84,7 +84,7 @@ class C21(Prop):
     ID = "C21"
     PROPS_FILE = "Props/C21.v"
     CORR_MODULE = "DataReg.Corr"
-    MAX_WORKERS = 8
+    MAX_WORKERS = 4
     COQ_SHARD = 60
     CASE_TIMEOUT = 30
     LEVEL_TEXT = ("Theorems (Coq, closed under the global context) over a line-by-line model of _RemotePathMapper "
@@ -103,8 +103,8 @@ class C21(Prop):
                   "random histories on the real DefaultDataManager and on the model and comparing every answer after "
                   "every operation; a property oracle written from the text judges the real answers.")
     LEVEL_NOTE = ("Trusted: Coq kernel + vm_compute; the hand-written model DataReg/Model.v (tied to the code only by the "
-                  "correspondence run); paths restricted to normalised absolute POSIX paths; mount order of "
-                  "get_inner_path (sorted, reversed) computed by the harness; relpath and the asyncio 'available' "
+                  "correspondence run); paths restricted to normalised absolute POSIX paths; the mount order of "
+                  "get_inner_path (sorted, reversed) is computed by the model (String.compare on the mount strings); relpath and the asyncio 'available' "
                   "event are not modelled; the model walks the flat node list where the code walks the trie "
                   "depth-first (marking commutes). No axioms.")
     TECHNIQUE = ("Coq proof (monotonicity orders and a location-key invariant over operation histories) + "
@@ -468,7 +468,7 @@ class C21(Prop):
             return None
         tab = []
         for L in c["locs"]:
-            ms = sorted(L["mounts"], key=lambda m: m[0], reverse=True)
+            ms = L["mounts"]            # in dict insertion order: the model sorts them itself (sort_mounts)
             tab.append(f"mkloc ({coq_str(L['dep'])}, {coq_str(L['name'])}) {coq_bool(L['local'])} "
                        f"{coq_opt(L['wraps'], coq_nat)} "
                        f"{coq_list([f'({self._cpath(m)}, {self._cpath(t)})' for m, t in ms])}")
